@@ -237,19 +237,70 @@ def report_through_each_copy(a, copies, v, cap, where, history):
     return len(digs)
 
 
+# options that only matter to what a command DOES, never to the state it loads: a rewrite under them reproduces the file too
+REWRITE_OPTIONS = [(), ("-E", "-Z")]
+
+
 def rewrite_in_place(a, copies, v, cap, where, history):
     before = open(a.cfile(0), "rb").read()
-    r = a.run("test-rewrite")
-    after = [open(a.cfile(c), "rb").read() for c in range(copies)]
-    cap.comparisons += copies
-    if r.rc != 0 or any(x != before for x in after):
-        v.violation("test-rewrite of a content file written by the tool does not reproduce it byte for byte "
-                    "(exit %d) after: %s" % (r.rc, where),
-                    {"history": history, "before": before.hex(), "after": [x.hex() for x in after], "stderr": r.err[-800:]},
-                    signature="rewrite-differs")
-        for c in range(copies):
-            with open(a.cfile(c), "wb") as f:
-                f.write(before)
+    for opts in REWRITE_OPTIONS:
+        r = a.run("test-rewrite", *opts)
+        after = [open(a.cfile(c), "rb").read() for c in range(copies)]
+        cap.comparisons += copies
+        if r.rc != 0 or any(x != before for x in after):
+            v.violation("test-rewrite %s of a content file written by the tool does not reproduce it byte for byte "
+                        "(exit %d) after: %s" % (" ".join(opts), r.rc, where),
+                        {"history": history, "options": list(opts), "before": before.hex(), "after": [x.hex() for x in after],
+                         "stderr": r.err[-800:]},
+                        signature="rewrite-differs" + ("-with-options" if opts else ""))
+            for c in range(copies):
+                with open(a.cfile(c), "wb") as f:
+                    f.write(before)
+            break
+
+
+LEVEL_NAMES = ["parity", "2-parity", "3-parity", "4-parity", "5-parity", "6-parity"]
+
+
+def gen_conf_oracle(a, conf, copies, v, cap, where, history):
+    """the layout rebuilt from a content copy alone (snapraid -C copy: block size, hash size, parity levels with their
+    number of files, data disks by name) is the one of the configuration that wrote it, whichever copy is read"""
+    import subprocess
+    n = 0
+    for k in range(copies):
+        if not os.path.exists(a.cfile(k)):
+            continue
+        p = subprocess.run([a.bin, "-C", a.cfile(k)], stdout=subprocess.PIPE, stderr=subprocess.PIPE, timeout=60)
+        out = p.stdout.decode(errors="replace").splitlines()
+        got = {"levels": {}, "data": [], "blocksize": None, "hashsize": None}
+        had = None
+        for line in out:
+            w = line.split()
+            if not w:
+                continue
+            if line.startswith("# You had "):
+                had = int(w[3])
+            elif w[0] in LEVEL_NAMES:
+                got["levels"][w[0]] = had
+                had = None
+            elif w[0] == "data" and len(w) >= 2:
+                got["data"].append(w[1])
+            elif w[0] in ("blocksize", "hashsize") and len(w) >= 2:
+                got[w[0]] = w[1]
+        want = {"levels": {LEVEL_NAMES[l]: conf.splits[l] for l in range(conf.np)},
+                # the disks of the saved state are those of its mapping records (a disk without any file has none)
+                "data": sorted((m["name"].decode() if isinstance(m["name"], bytes) else m["name"]) for m in content.decode(open(a.cfile(k), "rb").read())["maps"]),
+                "blocksize": "1", "hashsize": str(conf.hash_size)}
+        got["data"] = sorted(got["data"])
+        n += 1
+        cap.comparisons += 1
+        if p.returncode != 0 or got != want:
+            v.violation("the layout rebuilt from content copy %d alone (snapraid -C) is not the one that was saved (exit %d): "
+                        "got %r, saved %r, after: %s" % (k, p.returncode, got, want, where),
+                        {"history": history, "copy": k, "got": got, "want": want, "stderr": p.stderr.decode(errors="replace")[-600:]},
+                        signature="gen-conf-differs")
+            break
+    return n
 
 
 def history(hseed, conf_kw, profile, nsteps, v, cap, stats):
@@ -290,6 +341,17 @@ def history(hseed, conf_kw, profile, nsteps, v, cap, stats):
             if os.path.exists(os.path.join(base, b"zz")) and not os.path.lexists(os.path.join(base, b"hard:link")):
                 os.link(os.path.join(base, b"zz"), os.path.join(base, b"hard:link"))
         g.steps.append("add odd names, links, empty dirs on every disk")
+        # files copied to another disk with their time stamp (cp -p): the killed sync saves their blocks as "replaced" blocks
+        # carrying the known hashes
+        if conf.nd > 1:
+            for nm in sorted(os.listdir(a.ddir(0)))[:6]:
+                src = os.path.join(a.ddir(0), nm)
+                dst = os.path.join(a.ddir(1), nm)
+                if os.path.isfile(src) and not os.path.islink(src) and os.path.getsize(src) > 0 and not os.path.lexists(dst):
+                    shutil.copyfile(src, dst)
+                    stt = os.lstat(src)
+                    os.utime(dst, ns=(stt.st_mtime_ns, stt.st_mtime_ns))
+            g.steps.append("cp -p files of disk 0 to disk 1")
         # a sync killed right after its first save leaves the pre-sync image (blocks CHG / deleted)
         r = a.run("sync", rules=["rename,content,%d,killa" % copies])
         g.steps.append("sync killed after the first save -> %d" % r.rc)
@@ -334,6 +396,7 @@ def history(hseed, conf_kw, profile, nsteps, v, cap, stats):
                 stats["copy_loads"] += report_through_each_copy(a, copies, v, cap, tag + " final", g.steps)
             rewrite_in_place(a, copies, v, cap, tag + " final", g.steps)
             stats["rewrites"] += 1
+            stats["genconf"] = stats.get("genconf", 0) + gen_conf_oracle(a, conf, copies, v, cap, tag + " final", g.steps)
         r = a.run("scrub", "-p", "full")
         g.steps.append("scrub -> %d" % r.rc)
         cap.look(a, copies, tag + " scrub", g.steps)
@@ -429,6 +492,19 @@ def run(tier):
                 history(vlib.seed() * 1000 + rnd * 50 + i, ckw, profile, nsteps, lv, cap, stats)
         b_wall = time.time() - t0
         real = [x for x in cap.seen.values() if x]
+
+        # ---- every command loads the state that was saved: check and fix under --force-nocopy (an option for what SYNC does with
+        # copies) on an array whose content file holds provisional hashes (REP blocks), validated against ArrayTrace.tla
+        import arrayprop, directed
+        dsc = [arrayprop._run_scenario((vlib.seed() * 10 + k, dict(nd=2, np=1, copies=2), "directed-rep-corruption-nocopy", 0, fn))
+               for k, fn in enumerate((directed.rep_block_corruption_nocopy, directed.rep_block_corruption))]
+        for sc in dsc:
+            if sc.get("err"):
+                raise vlib.ToolFailure("directed history failed: " + sc["err"])
+        fnd, acc, st = arrayprop.validate_batch(dsc, "c10-nocopy")
+        for x in fnd:
+            arrayprop.report(v, x, rerun=False)
+        stats["option_histories"] = acc
 
         # ---- collect (A)
         results = pending.get(3600)
